@@ -219,7 +219,53 @@ def gen_cases(rng, tables, tier):
             cases.append(gen_case(rng, "d%d-%s-%s" % (n, name, port), tables, cfgs, slow_ok=(n % 12 == 0), per_route=per_route))
             n += 1
     cases.extend(wired_cases(rng))
+    cases.extend(reuse_cases(rng))
     return cases
+
+
+def reuse_cases(rng):
+    """a token that expires in two seconds is used while valid and the very same token bytes are presented again after its
+    expiry: the second request has to be refused whatever the first one left behind (the verifier keeps no memory of tokens
+    it has accepted; disable_disconnect_on_expiry concerns open upstream connections, not the validity of a token)"""
+    out = []
+    for i, noexp in enumerate((False, True)):
+        c = vc(hmac="hmacA", noexp=noexp)
+        case = {"id": "reuse-%d" % i, "wired": False}
+        for port in ("proxy", "upstream", "admin"):
+            case[port] = portcfg(mtv(c), cluster=True, registry=True)
+        t = tok(alg="HS256", key="hmacA", exp=2)
+        steps = [dict(step("admin", "/health", auth=hdr(copy.deepcopy(t))), label="reuse-after-expiry", reuse_ms=3600),
+                 dict(step("admin", "/status/cluster/nodes", xauth=hdr(copy.deepcopy(t))), label="reuse-after-expiry", reuse_ms=3600),
+                 dict(step("proxy", "/app", host="e.example.com", auth=hdr(copy.deepcopy(t))), label="reuse-after-expiry", reuse_ms=3600),
+                 dict(step("admin", "/metrics", auth=hdr(tok(alg="HS256", key="hmacA", exp=3600))), label="reuse-still-valid", reuse_ms=300)]
+        case["steps"] = steps
+        out.append(case)
+    return out
+
+
+def reuse_monitor(cases, outs):
+    """-> list of failures {sig, why, case}"""
+    fails = []
+    n = 0
+    for c, o in zip(cases, outs):
+        for r in (o.get("reuse") or []):
+            n += 1
+            st, ob = c["steps"][r["step"]], o["obs"][r["step"]]
+            times = ob.get("auth_t") or ob.get("xauth_t") or {}
+            exp = times.get("exp")
+            if r.get("fail"):
+                fails.append({"sig": "reuse-harness", "why": "second request failed: " + r["fail"], "case": c}); continue
+            if ob["status"] == 401 or exp is None:
+                continue
+            late = r["now_ns"] / 1e9 > exp + 0.5
+            if late and r["status"] != 401:
+                fails.append({"sig": "expired-token-accepted", "case": dict(c, steps=[st]),
+                              "why": "%s %s %s: a token accepted %.1f s before its expiry (status %d) was presented again %.1f s AFTER its expiry and answered %d, not 401 (disable_disconnect_on_expiry=%s)"
+                                     % (st["port"], st["method"], st["path"], exp - ob["now_ns"] / 1e9, ob["status"], r["now_ns"] / 1e9 - exp, r["status"], c[st["port"]]["verifier"]["default"]["noexp"])})
+            if not late and r["now_ns"] / 1e9 < exp - 0.5 and r["status"] != ob["status"]:
+                fails.append({"sig": "valid-token-refused-on-reuse", "case": dict(c, steps=[st]),
+                              "why": "%s %s: the same unexpired token was answered %d first and %d the second time" % (st["port"], st["path"], ob["status"], r["status"])})
+    return fails, n
 
 
 def kinds_of(cases):
@@ -248,6 +294,11 @@ def run(ctx):
         ID, sum(len(c["steps"]) for c in cases), len(cases), stats["t_harness"], stats["t_model"], time.time() - t1))
     violations += v
     known += k
+    rfails, nreuse = reuse_monitor(cases, stats["outs"])
+    for f in rfails[:1]:
+        violations.append({"what": "C09 monitor [%s]: %s" % (f["sig"], f["why"]), "found_input": True,
+                           "replay_obj": {"property": ID, "kind": "reuse", "signature": f["sig"], "why": f["why"], "case": f["case"]}})
+    cov_extra["token_reuse"] = {"second_requests": nreuse, "failures": len(rfails)}
     dis = stats["dis"]
     if pv is not None:
         cov_extra["discharged"] = 0
@@ -311,7 +362,8 @@ def replay(path, wd):
     res = []
     for st, ob in zip(case["steps"], out.get("obs") or []):
         res.append({"request": {k: v for k, v in st.items() if v not in (None, "")}, "implementation": ob, "monitor": monitor_step(case, st, ob)})
-    print(json.dumps({"deployment": out.get("panic") or "ok", "steps": res}, indent=1))
+    print(json.dumps({"deployment": out.get("panic") or "ok", "steps": res, "second_requests": out.get("reuse"),
+                      "reuse_monitor": [dict(f, case=None) for f in reuse_monitor([case], [out])[0]]}, indent=1))
     if not out.get("panic"):
         print("model disagreements:", correspondence(ID, wd, [case], [out], tag="replay"))
     return 0
